@@ -29,6 +29,7 @@ type ruleCase struct {
 		Enabled     bool   `json:"enabled"`
 		ID          string `json:"id"`
 		Second      string `json:"second"`
+		Shape       string `json:"shape"`
 		Ktype       string `json:"ktype"`
 		Purposes    string `json:"purposes"`
 		Material    string `json:"material"`
@@ -75,6 +76,30 @@ func badIDs() []string {
 	}
 	return out
 }
+
+// nVariants: classes that stand for many concrete spellings are realised by this many instances each.
+const nVariants = 4
+
+func usesVariants(c *ruleCase) bool {
+	switch c.P.Endpoint {
+	case "badUri", "relative", "nonString", "arrNonString", "arrNested", "arrUriBad", "arrBadUri", "arrObjBad":
+		return true
+	}
+	if c.P.Shape != "objects" && c.P.Shape != "" {
+		return true
+	}
+	switch c.P.Inner {
+	case "junkKey", "junkSvc", "keysNotArray", "svcsNotArray":
+		return true
+	}
+	return false
+}
+
+var junkEntries = []interface{}{"junk", 7, nil, true}
+var notArrays = []interface{}{"junk", map[string]interface{}{"id": "a"}, 7, true}
+var badURIs = []string{"not a uri", "http://x/a b", "http://x/<>", "http://x/%zz"}
+var relativeRefs = []string{"/etc/passwd", "*", "//host-without-scheme/x", "/\u00e9"}
+var nonStrings = []interface{}{42, true, 1.5e300, false}
 
 func usesBadChar(c *ruleCase) bool {
 	return c.P.ID == "badChar" || c.P.Ids == "badChar" || c.P.Inner == "badKey"
@@ -139,6 +164,8 @@ func keyEntry(c *ruleCase, id string, hasID bool) map[string]interface{} {
 	return e
 }
 
+var variant int // set by the (sequential) instantiation loop
+
 func svcEntry(c *ruleCase, id string, hasID bool) map[string]interface{} {
 	e := map[string]interface{}{}
 	if hasID {
@@ -147,7 +174,8 @@ func svcEntry(c *ruleCase, id string, hasID bool) map[string]interface{} {
 	if !c.P.TypeMissing {
 		e["type"] = map[string]string{"len1": "T", "len30": strings.Repeat("T", 30), "len31": strings.Repeat("T", 31)}[c.P.Stype]
 	}
-	good, bad := "https://e.example.com/x", "not a uri"
+	good, bad := "https://e.example.com/x", badURIs[variant%len(badURIs)]
+	rel, ns := relativeRefs[variant%len(relativeRefs)], nonStrings[variant%len(nonStrings)]
 	switch c.P.Endpoint {
 	case "uri":
 		e["serviceEndpoint"] = good
@@ -165,6 +193,14 @@ func svcEntry(c *ruleCase, id string, hasID bool) map[string]interface{} {
 		e["serviceEndpoint"] = []interface{}{map[string]interface{}{"o": 1}, bad}
 	case "object":
 		e["serviceEndpoint"] = map[string]interface{}{"origins": []interface{}{good}}
+	case "relative":
+		e["serviceEndpoint"] = []interface{}{rel, []interface{}{rel}, []interface{}{good, rel}, rel}[variant%4]
+	case "nonString":
+		e["serviceEndpoint"] = ns
+	case "arrNonString":
+		e["serviceEndpoint"] = [][]interface{}{{ns}, {nil}, {good, ns}, {ns, good}}[variant%4]
+	case "arrNested":
+		e["serviceEndpoint"] = [][]interface{}{{[]interface{}{"not a uri"}}, {good, []interface{}{"not a uri"}}, {[]interface{}{42}}, {[]interface{}{"/x"}, good}}[variant%4]
 	}
 	return e
 }
@@ -182,11 +218,26 @@ func rulePatch(c *ruleCase, bad string) (map[string]interface{}, string) {
 		}
 		return l
 	}
+	// the shape of the entry list: a non-object entry would never be looked at by the entry rules
+	shaped := func(l []interface{}) interface{} {
+		junk := junkEntries[variant%len(junkEntries)]
+		switch c.P.Shape {
+		case "junkFirst":
+			return append([]interface{}{junk}, l...)
+		case "junkLast":
+			return append(l, junk)
+		case "nested":
+			return []interface{}{[]interface{}{l}, []interface{}{[]interface{}{l}}, []interface{}{l, l[0]}, []interface{}{l[0], l}}[variant%4]
+		case "notArray":
+			return notArrays[variant%len(notArrays)]
+		}
+		return l
+	}
 	switch c.P.Kind {
 	case "addKeys":
-		return map[string]interface{}{"action": "add-public-keys", "publicKeys": entries(keyEntry)}, "add-public-keys"
+		return map[string]interface{}{"action": "add-public-keys", "publicKeys": shaped(entries(keyEntry))}, "add-public-keys"
 	case "addSvcs":
-		return map[string]interface{}{"action": "add-services", "services": entries(svcEntry)}, "add-services"
+		return map[string]interface{}{"action": "add-services", "services": shaped(entries(svcEntry))}, "add-services"
 	case "removeKeys", "removeSvcs":
 		ids := map[string][]interface{}{"ok": {"a", "b"}, "empty": {}, "badChar": {"a", bad}, "len51": {strings.Repeat("k", 51)}, "len50": {strings.Repeat("k", 50)}}[c.P.Ids]
 		if c.P.Kind == "removeKeys" {
@@ -212,6 +263,22 @@ func rulePatch(c *ruleCase, bad string) (map[string]interface{}, string) {
 			doc["services"] = []interface{}{svcEntry(&b2, "s1", true)}
 		case "dupKey":
 			doc["publicKeys"] = []interface{}{keyEntry(&base, "k1", true), keyEntry(&base, "k1", true)}
+		case "junkKey":
+			doc["publicKeys"] = [][]interface{}{{junkEntries[variant%4], keyEntry(&base, "k1", true)}, {keyEntry(&base, "k1", true), junkEntries[variant%4]}}[variant/4%2]
+		case "junkSvc":
+			doc["services"] = [][]interface{}{{junkEntries[variant%4], svcEntry(&base, "s1", true)}, {svcEntry(&base, "s1", true), junkEntries[variant%4]}}[variant/4%2]
+		case "nestedKeys":
+			bad := keyEntry(&base, "bad id!!", true)
+			bad["type"] = "NoSuchType"
+			doc["publicKeys"] = []interface{}{[]interface{}{bad}}
+		case "nestedSvcs":
+			b2 := base
+			b2.P.Stype, b2.P.Endpoint = "len31", "badUri"
+			doc["services"] = []interface{}{[]interface{}{svcEntry(&b2, "bad id!!", true)}}
+		case "keysNotArray":
+			doc["publicKeys"] = notArrays[variant%4]
+		case "svcsNotArray":
+			doc["services"] = notArrays[variant%4]
 		}
 		return map[string]interface{}{"action": "replace", "document": doc}, "replace"
 	}
@@ -230,6 +297,9 @@ func ruleClass(c *ruleCase) string {
 	}
 	add("id", c.P.ID, "len1")
 	add("second", c.P.Second, "none")
+	if c.P.Shape != "" {
+		add("shape", c.P.Shape, "objects")
+	}
 	add("ktype", c.P.Ktype, "JsonWebKey2020")
 	add("purposes", c.P.Purposes, "auth")
 	add("material", c.P.Material, "jwk")
@@ -471,24 +541,31 @@ func C18(c *ev.Ctx) {
 	jobID := 0
 	var nt, stricter int64
 	bads := badIDs()
-	var nBad int64
+	var nBad, nVar int64
 	type inst struct {
 		cs  *ruleCase
 		bad string
+		v   int
 	}
 	var insts []inst
 	for i := range cases {
 		if usesBadChar(&cases[i]) {
 			for _, b := range bads {
-				insts = append(insts, inst{&cases[i], b})
+				insts = append(insts, inst{&cases[i], b, 0})
 				nBad++
 			}
+		} else if usesVariants(&cases[i]) {
+			for v := 0; v < 2*nVariants; v++ {
+				insts = append(insts, inst{&cases[i], "", v})
+				nVar++
+			}
 		} else {
-			insts = append(insts, inst{&cases[i], ""})
+			insts = append(insts, inst{&cases[i], "", 0})
 		}
 	}
 	for i := range insts {
 		cs := insts[i].cs
+		variant = insts[i].v
 		p, action := rulePatch(cs, insts[i].bad)
 		enabled := allPatchActions
 		if !cs.P.Enabled {
@@ -617,6 +694,7 @@ func C18(c *ev.Ctx) {
 	}
 	c.Cov.TracesValidatedAgainstImpl = int64(len(insts)) + jsonCases + applied
 	c.Cov.Extra["bad_character_id_instances"] = nBad
+	c.Cov.Extra["variant_instances_of_endpoint_and_entry_shape_classes"] = nVar
 	c.Cov.Evaluations = c.Cov.TracesValidatedAgainstImpl
 	c.Cov.DistinctNontrivial = nt + jsonCases
 	c.Cov.Exhaustive = true
@@ -625,6 +703,6 @@ func C18(c *ev.Ctx) {
 	c.Cov.Extra["accepted_patch_applications"] = applied
 	c.Cov.Extra["applications_returning_a_document"] = applyOK
 	c.Cov.Extra["valid_cases_rejected_by_validator"] = stricter
-	c.Cov.Rule = "PatchRules.tla: baseline of each patch kind + every combination of <= MaxDev rule deviations (id class - the class badChar is realised as every ASCII character outside [A-Za-z0-9_-] at the start / middle / end of an id plus non-ASCII letters -, duplicate id, key type x purposes, key material, unknown member, missing type, service type length, endpoint forms, remove-id / URI list classes, replace document contents, action enabled); verdict: the real ValidateDelta must not accept a case Valid() rejects. JSON patches: all single RFC 6902 operations over 7 ops x 18 path classes x 9 from classes x 3 value classes (null members included), alone and preceded by the aliasing first operation {copy /other -> /copied} (thorough: by 5 state-setting first operations). Every accepted patch is applied by the real composer to 6 small documents in a crash-isolated child process: no panic / crash / hang, and an accepted JSON patch must leave the public-key and service sections untouched."
+	c.Cov.Rule = "PatchRules.tla: baseline of each patch kind + every combination of <= MaxDev rule deviations (id class - the class badChar is realised as every ASCII character outside [A-Za-z0-9_-] at the start / middle / end of an id plus non-ASCII letters -, duplicate id, key type x purposes, key material, unknown member, missing type, service type length, endpoint forms (incl. scheme-less references, numbers / booleans, arrays holding them, non-URIs one array deeper; 8 concrete instances per class), entry-list shapes (a non-object entry first / last, entries one array deeper, a section that is no array; in add-* and replace patches), remove-id / URI list classes, replace document contents, action enabled); verdict: the real ValidateDelta must not accept a case Valid() rejects. JSON patches: all single RFC 6902 operations over 7 ops x 18 path classes x 9 from classes x 3 value classes (null members included), alone and preceded by the aliasing first operation {copy /other -> /copied} (thorough: by 5 state-setting first operations). Every accepted patch is applied by the real composer to 6 small documents in a crash-isolated child process: no panic / crash / hang, and an accepted JSON patch must leave the public-key and service sections untouched."
 	c.Finish("model_checking")
 }
